@@ -85,6 +85,7 @@ type SchedStep struct {
 
 // Exec is one execution (one path).
 type Exec struct {
+	gcells map[*ssa.Global]*Value // this execution's copies of package variables
 	pools  map[*Value][]Value // sync.Pool contents of this execution
 	in     *Interp
 	cfg    Config
